@@ -209,6 +209,14 @@ func init() {
 		}
 		return "ok " + showParas(ps)
 	}
+	// rparas: the target of Unmarshal is a []control.Paragraph itself (no wrapping struct): "decoding into a slice"
+	ops["rparas"] = func(a []string) string {
+		out := []control.Paragraph{}
+		if err := control.Unmarshal(&out, strings.NewReader(arg(a, 0))); err != nil {
+			return "err"
+		}
+		return "ok " + showParas(out)
+	}
 	// Decoder.Decode one struct at a time until EOF
 	ops["rdecode"] = func(a []string) string {
 		dec, err := control.NewDecoder(strings.NewReader(arg(a, 0)), nil)
